@@ -72,16 +72,20 @@ StrEntry(ps, k) ==
 Rej(why) == [verdict |-> "reject", why |-> why, consumed |-> 0, seq |-> <<>>, pairs |-> <<>>,
              sig |-> <<>>, scheme |-> "", pk |-> <<>>, nid |-> <<>>, fm |-> FALSE]
 
-\* class of one value item under key k: "ok" | "bad" | "open"
-ValueClass(b, k, it, kt) ==
+\* class of one value item under key k: "ok" | "bad" | "open" | "pklist" (a list under a public-key key:
+\* ill-typed for a key type that uses this key, unspecified for the others)
+ValueClass0(b, k, it) ==
   IF k = K_id THEN (IF ~it.list /\ Payload(b, it) = V_v4 THEN "ok" ELSE "bad")
   ELSE IF k \in PortKeys THEN (IF IsCanonInt(b, it, 2) THEN "ok" ELSE "bad")
   ELSE IF k = K_ip THEN (IF ~it.list /\ it.pl = 4 THEN "ok" ELSE "bad")
   ELSE IF k = K_ip6 THEN (IF ~it.list /\ it.pl = 16 THEN "ok" ELSE "bad")
-  ELSE IF k \in {K_secp256k1, K_ed25519} THEN
-       (IF ~it.list THEN "ok" ELSE IF k \in OwnPkKeys(kt) THEN "bad" ELSE "open")
+  ELSE IF k \in {K_secp256k1, K_ed25519} THEN (IF ~it.list THEN "ok" ELSE "pklist")
   ELSE IF it.list THEN (IF DeepOk(b, it.ps, it.ps + it.pl - 1) THEN "ok" ELSE "open")
   ELSE "ok"
+
+ValueClass(b, k, it, kt) ==
+  LET c == ValueClass0(b, k, it) IN
+  IF c = "pklist" THEN (IF k \in OwnPkKeys(kt) THEN "bad" ELSE "open") ELSE c
 
 \* items[3..] as pairs; n = number of pairs
 PairAt(b, items, j) == <<Payload(b, items[2 * j + 1]), ItemBytes(b, items[2 * j + 2])>>
@@ -120,49 +124,71 @@ FactsMatch(F, msg, sig, pairs) ==
   /\ (F.secp.present /\ Len(F.secp.pk) = 33 =>
         F.secp.valid = F.secp.valid2 /\ F.secp.sm = F.secp.sm2 /\ F.secp.nid = F.secp.nid2)
 
-Decode(kt, b, F) ==
+(***************************************************************************)
+(* Parse: the part of the acceptance rule that does not depend on the key  *)
+(* type (framing, size, shape, ordering, typing of reserved values).       *)
+(***************************************************************************)
+PRej(why) == [ok |-> FALSE, why |-> why, consumed |-> 0, seq |-> <<>>, pairs |-> <<>>, sig |-> <<>>,
+              msg |-> <<>>, anyOpen |-> FALSE, pkLists |-> {}]
+
+Parse(b) ==
   LET h == Hdr(b, 1, Len(b)) IN
-  IF ~h.ok THEN Rej("outer:" \o h.err)
-  ELSE IF ~h.list THEN Rej("outer:string")
+  IF ~h.ok THEN PRej("outer:" \o h.err)
+  ELSE IF ~h.list THEN PRej("outer:string")
   ELSE LET consumed == (h.ps - 1) + h.pl IN
-  IF consumed > MaxSize THEN Rej("size")
+  IF consumed > MaxSize THEN PRej("size")
   ELSE LET r == Items(b, h.ps, h.ps + h.pl - 1)  items == r.items  n == Len(items) IN
-  IF ~r.ok THEN Rej("item")
-  ELSE IF n < 2 THEN Rej("short")
-  ELSE IF items[1].list THEN Rej("sig:list")
-  ELSE IF ~IsCanonInt(b, items[2], 8) THEN Rej("seq")
-  ELSE IF (n - 2) % 2 # 0 THEN Rej("odd")
+  IF ~r.ok THEN PRej("item")
+  ELSE IF n < 2 THEN PRej("short")
+  ELSE IF items[1].list THEN PRej("sig:list")
+  ELSE IF ~IsCanonInt(b, items[2], 8) THEN PRej("seq")
+  ELSE IF (n - 2) % 2 # 0 THEN PRej("odd")
   ELSE LET np == (n - 2) \div 2
            keyIt(j) == items[2 * j + 1]
            valIt(j) == items[2 * j + 2]
-           key(j) == Payload(b, keyIt(j))
-           cls == [j \in 1..np |-> ValueClass(b, key(j), valIt(j), kt)]
+           keys == [j \in 1..np |-> Payload(b, keyIt(j))]
+           cls == [j \in 1..np |-> ValueClass0(b, keys[j], valIt(j))]
        IN
-  IF \E j \in 1..np : keyIt(j).list THEN Rej("key:list")
-  ELSE IF \E j \in 1..(np - 1) : ~LexLt(key(j), key(j + 1)) THEN Rej("order")
-  ELSE IF \E j \in 1..np : cls[j] = "bad" THEN Rej("value")
-  ELSE IF ~\E j \in 1..np : key(j) = K_id THEN Rej("noid")
-  ELSE LET pairs == [j \in 1..np |-> PairAt(b, items, j)]
-           sig == Payload(b, items[1])
-           seq == Payload(b, items[2])
-           restStart == items[2].s
+  IF \E j \in 1..np : keyIt(j).list THEN PRej("key:list")
+  ELSE IF \E j \in 1..(np - 1) : ~LexLt(keys[j], keys[j + 1]) THEN PRej("order")
+  ELSE IF \E j \in 1..np : cls[j] = "bad" THEN PRej("value")
+  ELSE IF ~\E j \in 1..np : keys[j] = K_id THEN PRej("noid")
+  ELSE LET restStart == items[2].s
            restLen == (h.ps + h.pl) - restStart
-           msg == EncHdr(TRUE, restLen) \o Slice(b, restStart, restLen)
-       IN
-  IF ~FactsMatch(F, msg, sig, pairs) THEN [Rej("factmismatch") EXCEPT !.fm = TRUE]
+       IN [ok |-> TRUE, why |-> "", consumed |-> consumed,
+           seq |-> Payload(b, items[2]),
+           pairs |-> [j \in 1..np |-> PairAt(b, items, j)],
+           sig |-> Payload(b, items[1]),
+           msg |-> EncHdr(TRUE, restLen) \o Slice(b, restStart, restLen),
+           anyOpen |-> \E j \in 1..np : cls[j] = "open",
+           pkLists |-> {keys[j] : j \in {i \in 1..np : cls[i] = "pklist"}}]
+
+\* the facts belong to this parse (or the parse failed and no facts are needed)
+FactsFit(P, F) == P.ok => FactsMatch(F, P.msg, P.sig, P.pairs)
+
+(***************************************************************************)
+(* Judge: the key-type dependent part (which public key, which signature   *)
+(* rule), given the parse and the oracle facts.                            *)
+(***************************************************************************)
+Judge(kt, P, F, fit) ==
+  IF ~P.ok THEN Rej(P.why)
+  ELSE IF (P.pkLists \cap OwnPkKeys(kt)) # {} THEN Rej("value")
+  ELSE IF ~fit THEN [Rej("factmismatch") EXCEPT !.fm = TRUE]
   ELSE LET sch == SchemeFor(kt, F)
-           anyOpen == \E j \in 1..np : cls[j] = "open"
-           res(v, s) == [verdict |-> v, why |-> "", consumed |-> consumed, seq |-> seq, pairs |-> pairs,
-                         sig |-> sig, scheme |-> s,
+           anyOpen == P.anyOpen \/ P.pkLists # {}
+           res(v, s) == [verdict |-> v, why |-> "", consumed |-> P.consumed, seq |-> P.seq, pairs |-> P.pairs,
+                         sig |-> P.sig, scheme |-> s,
                          pk |-> IF s = "secp" THEN F.secp.pk ELSE IF s = "ed" THEN F.ed.pk ELSE <<>>,
                          nid |-> IF s = "secp" THEN F.secp.nid ELSE IF s = "ed" THEN F.ed.nid ELSE <<>>,
                          fm |-> FALSE]
        IN
   IF sch = "reject" THEN Rej("pk")
   ELSE IF sch = "open" THEN res("open", "")
-  ELSE IF ~SigOk(kt, sch, sig, F) THEN Rej("sig")
+  ELSE IF ~SigOk(kt, sch, P.sig, F) THEN Rej("sig")
   ELSE IF anyOpen THEN res("open", sch)
   ELSE res("accept", sch)
+
+Decode(kt, b, F) == LET P == Parse(b) IN Judge(kt, P, F, FactsFit(P, F))
 
 (***************************************************************************)
 (* The same acceptance rule stated declaratively (property C02), used by   *)
